@@ -60,10 +60,10 @@ def CanonP (p : Para) : Prop := ∀ f ∈ p, CanonF f
     and field-wise canonical. This is what `Spec.canonDocB` decides (`canonDocB_iff`). -/
 def CanonD (D : Doc) : Prop := ∀ p ∈ D, p ≠ [] ∧ CanonP p
 
-instance (v : Str) : Decidable (CanonV v) := by unfold CanonV; infer_instance
-instance (f : Field) : Decidable (CanonF f) := by unfold CanonF; infer_instance
-instance (p : Para) : Decidable (CanonP p) := by unfold CanonP; infer_instance
-instance (D : Doc) : Decidable (CanonD D) := by unfold CanonD; infer_instance
+instance (v : Str) : Decidable (CanonV v) := inferInstanceAs (Decidable (CanonLines (Text.splitOn '\n' v)))
+instance (f : Field) : Decidable (CanonF f) := inferInstanceAs (Decidable (ValidKey f.1 ∧ CanonV f.2))
+instance (p : Para) : Decidable (CanonP p) := inferInstanceAs (Decidable (∀ f ∈ p, CanonF f))
+instance (D : Doc) : Decidable (CanonD D) := inferInstanceAs (Decidable (∀ p ∈ D, p ≠ [] ∧ CanonP p))
 
 /-- the harness's domain predicate is exactly `CanonD` -/
 theorem canonDocB_iff (D : Doc) : canonDocB D = true ↔ CanonD D := by
@@ -158,7 +158,7 @@ theorem tail_str (ps : Doc) (h : ∀ p ∈ ps, CanonP p) :
     cases p with
     | nil =>
       simp only [List.map_cons, List.flatten_cons, leadOf, parasOf, gapsStr, Gap.str, ih',
-        printPara_nil, List.map_nil, List.flatten_nil, List.cons_append, List.nil_append]
+        printPara_nil, List.cons_append, List.nil_append]
     | cons f fs =>
       simp only [List.map_cons, List.flatten_cons, leadOf, parasOf, gapsStr, Gap.str, ih',
         paraG_str f fs (h _ (by simp)), List.map_nil, List.flatten_nil, List.cons_append,
